@@ -75,7 +75,8 @@ def main():
                            'what_no_longer_checks': f'a single case of the correspondence / oracle run of {prop} did not return within '
                                                     f'{common.CASE_TIMEOUT_S} s (case: {h.args[0] if h.args else None!r}); '
                                                     'the run was abandoned there',
-                           'traceback': traceback.format_exc()[-3000:]}, no_input=True)
+                           'case': (h.args[0] if h.args else None),
+                           'traceback': traceback.format_exc()[-3000:]}, no_input=not (h.args and h.args[0] is not None))
             hung = True
         finally:
             common.disarm_case_timeout()
